@@ -14,7 +14,9 @@ from gbasis.integrals.electron_repulsion import ElectronRepulsionIntegral, elect
 
 RULE = ("(i) all 256 quartets (l1..l4) in 0..3^4 enumerated at block level (ElectronRepulsionIntegral."
         "construct_array_contraction), exponents log-uniform 0.1-10 (0.2-5 with an f shell), K 1-3, M 1-2, geometry "
-        "class coincident / collinear / general drawn by Hypothesis; (ii) whole-basis calls on 2-3 shells with every "
+        "class coincident / collinear / general drawn by Hypothesis; (i-b) heavy quartets: l 0-3, primitive counts 1-10 per shell "
+        "(uneven) chosen so that the recursion work space (L+1)^3 (L_ket+1)^3 K1K2K3K4 falls in drawn bands 2^18..2^25.4, at block level "
+        "and through the public function on the two heaviest shells; (ii) whole-basis calls on 2-3 shells with every "
         "Cartesian/spherical assignment, both notations, with and without transformation; (iii) a fixed, keyed list of "
         "realistic ill-conditioned quartets (tight s/p pairs incl. the tightest primitives of cc-pVDZ C and ANO-RCC O "
         "against diffuse p/d/f pairs, 1-3 centres, both bra/ket orientations).  Oracle: McMurchie-Davidson (R2), "
@@ -103,6 +105,75 @@ def shards_quartets(tier):
     for ls in itertools.product(range(4), repeat=4):
         out.append({"id": "".join(map(str, ls)), "ls": list(ls), "n": n, "kmax": kmax, "cost": n * (1 + sum(ls)) ** 3})
     return out
+
+
+# ---- (i-b) heavy quartets: many primitives x angular momentum (large recursion work space) --------------
+def workspace(ls, ks):
+    """Elements of the largest intermediate of a Head-Gordon-Pople evaluation, up to a constant: (L+1)^3 (L_ket+1)^3 prod K."""
+    return (sum(ls) + 1) ** 3 * (ls[2] + ls[3] + 1) ** 3 * int(np.prod(ks))
+
+
+@st.composite
+def heavy_st(draw, lg_lo, lg_hi):
+    """Quartets whose work space (L+1)^3 (L_ket+1)^3 K1 K2 K3 K4 is drawn log-uniformly between 2^lg_lo and 2^lg_hi: primitive
+    counts up to 10 per shell (published contracted sets have 3-14), uneven counts, so that any evaluation in blocks or batches
+    of primitives meets its remainder cases."""
+    ls = [draw(st.sampled_from([1, 2, 0, 3])) for _ in range(4)]
+    target = 2.0 ** draw(st.floats(lg_lo, lg_hi, allow_nan=False))
+    ks = [1, 1, 1, 1]
+    for _ in range(40):
+        if workspace(ls, ks) >= target:
+            break
+        free = [i for i in range(4) if ks[i] < 10]
+        if not free:
+            break
+        ks[free[draw(st.integers(0, len(free) - 1))]] += 1
+    lo, hi = (0.2, 5.0) if max(ls) >= 3 else (0.1, 10.0)
+    cs = draw(gen.centres(4, p_same=0.3, halves=(0.5, 2.0)))
+    shells = [draw(gen.shell(l, c, kmin=k, kmax=k, mmax=1, types=("cartesian",), exp_lo=lo, exp_hi=hi))
+              for l, k, c in zip(ls, ks, cs)]
+    return {"shells": shells, "geo": "heavy"}
+
+
+def judge_heavy(case):
+    shells = case["shells"]
+    ls = [s["l"] for s in shells]
+    ks = [len(s["exps"]) for s in shells]
+    w = workspace(ls, ks)
+    v = Verdict(classes=["workspace-2^%d" % int(np.log2(max(w, 1))), "Kmax-%d" % max(ks), "lsum-%d" % sum(ls)])
+    if len(set(ks)) > 1:
+        v.classes.append("uneven-K")
+    v.nontrivial = max(ks) >= 3
+    judge_block(v, shells)
+    if v.ok and sum(ls) > 0:
+        # the same quartet through the public function (one basis of four shells would be 4^4 blocks; two shells suffice to place
+        # the heavy shells in every position of some block)
+        order = sorted(range(4), key=lambda i: -ks[i])[:2]
+        two = [shells[i] for i in order]
+        lmx, kmx = max(s_["l"] for s_ in two), max(len(s_["exps"]) for s_ in two)
+        if workspace([lmx] * 4, [kmx] * 4) > 2 ** 25:
+            v.classes.append("whole-skipped-too-large")
+            return v
+        v.classes.append("whole-two-heaviest")
+        R = r3.refs(two)
+        ref = r2.eri_full(R)
+        dg = np.sqrt(np.abs(np.einsum("abab->ab", ref)))
+        scale = dg[:, :, None, None] * dg[None, None, :, :] + FLOOR / TOL
+        got = lib(electron_repulsion_integral, mk_basis(two), notation="chemist")
+        d, at = maxdev(got, ref, scale)
+        v.info["schwarz_dev_whole"] = d
+        if not d <= TOL:
+            return v.fail(f"electron_repulsion_integral on the two heaviest shells (K {[ks[i] for i in order]}) deviates by {d:.3e} "
+                          f"of the Schwarz scale at {at}")
+    return v
+
+
+def shards_heavy(tier):
+    # quick: one or two cases per band of work-space size 2^18 .. 2^25.4; thorough: 12 per band
+    bands = [(18, 20), (20, 22), (22, 23), (23, 24), (24, 24.7), (24.7, 25.4)]
+    n = 2 if tier == "quick" else 12
+    return [{"id": f"{a}-{b}-{i}", "lo": a, "hi": b, "n": n, "cost": 600 * n}
+            for a, b in bands for i in range(2 if tier == "quick" else 4)]
 
 
 # ---- (ii) whole-basis calls -----------------------------------------------------------------
@@ -248,6 +319,7 @@ def shards_ill(tier):
 
 SUBCHECKS = [
     SubCheck("quartets", judge_quartet, shards_quartets, strategy=lambda s: quartet_st(s["ls"], s["kmax"])),
+    SubCheck("heavy", judge_heavy, shards_heavy, strategy=lambda s: heavy_st(s["lo"], s["hi"])),
     SubCheck("whole", judge_whole, shards_whole, strategy=lambda s: whole_st(s["lmax"])),
     SubCheck("illcond", judge_ill, shards_ill, cases=lambda s: ill_list()[s["lo"]:s["hi"]]),
 ]
